@@ -378,7 +378,7 @@ func runBatch(bh *builtHarness, seed, from, count uint64, budget time.Duration, 
 			}
 			env["VERIF_BUDGET_MS"] = fmt.Sprint(remaining.Milliseconds())
 		}
-		wd := 30 * time.Minute
+		wd := 12 * time.Minute
 		if budget > 0 {
 			wd = remaining*2 + 5*time.Minute
 		}
